@@ -336,6 +336,52 @@ def correspond(ctx, scale):
                         break
             except Exception as ex:
                 fail(f'{name}:frozen-history:exception:{type(ex).__name__}', f'{name} ({lay}): {ex!r}', dict(name=name, layout=lay))
+    # sub-modules RE-PARAMETRISED by the caller (torch.nn.utils.weight_norm / prune: the effective weight is rebuilt by a forward pre-hook of the
+    # projection module, its `.weight` attribute may be stale): forward and decoder both go through the module, so they agree - in training, in
+    # evaluation, and after a state_dict reload into a freshly wrapped module
+    from vector_quantize_pytorch import VectorQuantize as _VQ, ResidualVQ as _RVQ
+    import torch.nn.utils.prune as _prune
+    for wi, (wname, wrap) in enumerate((('weight_norm', lambda lin: torch.nn.utils.weight_norm(lin)), ('prune', lambda lin: _prune.l1_unstructured(lin, 'weight', amount=0.3)))):
+        for cf_ in (False, True):
+            for cls_ in ('vq', 'rvq'):
+                if cls_ == 'rvq' and cf_:
+                    continue          # ResidualVQ's own projection is channel-last only
+                try:
+                    def mkw():
+                        mw = _VQ(dim=5, codebook_dim=3, codebook_size=7, channel_last=not cf_) if cls_ == 'vq' else _RVQ(dim=5, codebook_dim=3, num_quantizers=2, codebook_size=7, channel_last=not cf_)
+                        for pname in ('project_in', 'project_out'):
+                            lin = getattr(mw, pname)
+                            lin = lin if isinstance(lin, torch.nn.Linear) else lin[0]
+                            wrap(lin)
+                        return mw
+                    mw = mkw()
+                    mw.train()
+                    ps_ = [p_ for p_ in mw.parameters() if p_.requires_grad]
+                    for _ in range(2):
+                        xw = torch.randn(2, 5, 4) if cf_ else torch.randn(2, 4, 5)
+                        rw = mw(xw)
+                        (rw[0].pow(2).sum() + rw[2].sum()).backward()
+                        torch.optim.SGD(ps_, lr=0.1).step()
+                        for p_ in ps_:
+                            p_.grad = None
+                    m2 = mkw()
+                    m2.load_state_dict(mw.state_dict())
+                    for stage, mm_ in (('after-training', mw), ('after-reload', m2)):
+                        mm_.eval()
+                        xw = torch.randn(2, 5, 4) if cf_ else torch.randn(2, 4, 5)
+                        with torch.no_grad():
+                            rw = mm_(xw)
+                            dw = mm_.get_output_from_indices(rw[1])
+                        ow = rw[0].movedim(1, -1) if cf_ else rw[0]
+                        if dw.shape != ow.shape and dw.shape == rw[0].shape:
+                            ow = rw[0]
+                        ev += 1
+                        bump('reparametrised-projections')
+                        if dw.shape != ow.shape or not torch.allclose(dw, ow, atol=1e-5, rtol=1e-4):
+                            fail(f'{cls_}:reparametrised-projection:{wname}:{stage}', f'{cls_} (channel_first={cf_}) with its projections wrapped by {wname}, {stage}: get_output_from_indices(indices) differs from the '
+                                 f'forward output by {float((dw - ow).abs().max()) if dw.shape == ow.shape else "shape"}', dict(cls=cls_, wrap=wname, stage=stage, channel_first=cf_))
+                except Exception as ex:
+                    fail(f'{cls_}:reparametrised-projection:{wname}:exception:{type(ex).__name__}', repr(ex), dict(cls=cls_, wrap=wname))
     bad, broken = core.run_cases(ctx, 'c02', HEADER, cases, per_file=40)
     for name, out in broken:
         fail(f'coq-eval:{name}', 'case file did not evaluate: ' + out, {'file': name})
